@@ -324,8 +324,9 @@ class RedshiftBinningFactory:
             dist = self.cosmology.comoving_distance(z)
             return dist if isinstance(dist, units.Quantity) else dist * units.Mpc
 
-        edges = z_at_value(comoving_distance, comov_edges)
-        return Binning(edges.value, closed=closed)
+        edges = z_at_value(comoving_distance, comov_edges).value
+        edges[0], edges[-1] = min, max  # not exact due to root finding tolerance
+        return Binning(edges, closed=closed)
 
     def logspace(
         self,
@@ -338,6 +339,7 @@ class RedshiftBinningFactory:
         """Creates a binning linear in 1+ln(z) between a min and max redshift."""
         log_min, log_max = np.log([1.0 + min, 1.0 + max])
         edges = np.logspace(log_min, log_max, num_bins + 1, base=np.e) - 1.0
+        edges[0], edges[-1] = min, max  # not exact due to rounding
         return Binning(edges, closed=closed)
 
     def get_method(
